@@ -7,7 +7,13 @@ PROPS = {}
 NOT_APPLICABLE = {}
 HOOK_COMMITS = []
 
-for _f in sorted(glob.glob(os.path.join(os.path.dirname(os.path.abspath(__file__)), "props.d", "C*.py"))):
+_here = os.path.dirname(os.path.abspath(__file__))
+# only properties listed in vf/ready.txt are registered (a fragment may exist while its harness is still being built)
+READY = set(open(os.path.join(_here, "ready.txt")).read().split())
+ALL_FRAGMENTS = {}
+for _f in sorted(glob.glob(os.path.join(_here, "props.d", "C*.py"))):
     _ns = {}
     exec(compile(open(_f).read(), _f, "exec"), _ns)
-    PROPS[os.path.basename(_f)[:-3]] = _ns["PROP"]
+    ALL_FRAGMENTS[os.path.basename(_f)[:-3]] = _ns["PROP"]
+    if os.path.basename(_f)[:-3] in READY or os.environ.get("VERIF_ALL_FRAGMENTS"):
+        PROPS[os.path.basename(_f)[:-3]] = _ns["PROP"]
